@@ -48,6 +48,13 @@ def run(ctx: Ctx, env):
         if q not in repo.classes:
             raise AnalysisError(f"{q} not found")
 
+    # ---- (0) the front of the pipeline the shorthands run: literal values as written, parse -> visit -> filter ----------
+    from .c06 import check_token_actions
+    from .c15 import _check_chain
+    check_token_actions(ctx, env, "R0.literal-values-as-written")
+    _check_chain(ctx, env, "sqlalchemy.apply_odata_query", "odata_query.sqlalchemy.shorthand", "apply_odata_query", "AstToSqlAlchemyOrmVisitor")
+    _check_chain(ctx, env, "sqlalchemy.apply_odata_core", "odata_query.sqlalchemy.shorthand", "apply_odata_core", "AstToSqlAlchemyCoreVisitor")
+
     # ---- (1) operators -------------------------------------------------------------------------------------------------
     n_ops = 0
     for cls, allowed in OP_CONSTRUCT.items():
